@@ -93,6 +93,43 @@ func c07(r *Run) {
 			r.obW("C07.R1:recheck-before-block:"+key, "before every blocking receive the reader re-reads the buffer length (after the publish / after the previous wake-up): data that arrived before the publish is not waited for", fn, rc, wit, "Len() on every path into the receive")
 		}
 	}
+	// after a wake-up without error the length is re-read before the function can return: a stale or
+	// early trigger never makes the reader return with fewer than n bytes
+	for _, fn := range []*ssa.Function{waitRead, waitReadT} {
+		stop, cut, _ := recvMatchers(fn, ".readTrigger")
+		var starts []Start
+		for _, rc := range findIns(fn, stop) {
+			starts = append(starts, After(rc))
+		}
+		for _, b := range fn.Blocks {
+			if len(b.Instrs) == 0 {
+				continue
+			}
+			if ifi, ok := b.Instrs[len(b.Instrs)-1].(*ssa.If); ok {
+				for _, br := range []bool{true, false} {
+					if cut(ifi, ifi.Cond, br) {
+						starts = append(starts, OnEdge(ifi, br))
+					}
+				}
+			}
+		}
+		// the received value: plain receive result or the select's extracted value
+		isTrigVal := func(v ssa.Value) bool {
+			v = seeThroughCell(v)
+			if u, ok := v.(*ssa.UnOp); ok && u.Op == token.ARROW && strings.HasSuffix(pathOf(u.X), ".readTrigger") {
+				return true
+			}
+			if ex, ok := v.(*ssa.Extract); ok && ex.Index >= 2 {
+				if sel, ok := ex.Tuple.(*ssa.Select); ok && ex.Index-2 < len(sel.States) {
+					return strings.HasSuffix(pathOf(sel.States[ex.Index-2].Chan), ".readTrigger")
+				}
+			}
+			return false
+		}
+		gotErr := cmpAtom(isTrigVal, isNilConst, neqRel)
+		r.mustPass("C07.R1:recheck-after-wakeup:"+fn.Name(), "after being woken without an error the reader re-reads the buffer length before it can return (a wake-up alone - possibly stale, possibly for fewer bytes - never counts as 'n bytes are there')", fn, nil, starts,
+			isLenReadIns, cutOn(gotErr), nil, "Len() on every path from a nil wake-up to a return")
+	}
 	// in waitRead the re-read comes after the publish: no path Store -> receive/timeout-variant without Len
 	for _, st := range findIns(waitRead, isStoreWRS(true)) {
 		stop, _, _ := recvMatchers(waitRead, ".readTrigger")
